@@ -251,7 +251,17 @@ func run(c Case) *vh.Violation {
 		return nil
 	}
 
-	// 2. the case proper
+	// 2. the case proper (repeated when the outcome may depend on the tool's map iteration order:
+	// the first violating run is the verdict)
+	for i := 1; i < c.Repeat; i++ {
+		if v := judge(c); v != nil {
+			return v
+		}
+	}
+	return judge(c)
+}
+
+func judge(c Case) *vh.Violation {
 	o := runVariant(c.Common, c.Fault, c.Expect)
 	feature := c.Entry
 	if c.Second != "" {
@@ -290,6 +300,10 @@ func run(c Case) *vh.Violation {
 	}
 	if !c.MustFail {
 		vh.DontCare("clean-failure:" + c.Entry)
+		if strings.HasPrefix(c.Entry, "u-plain") {
+			// the same input was accepted a moment ago (baseline): worth a note
+			vh.Note("plain valid configuration rejected on the second run: exit %d: %s", o.res.Exit, vh.Trunc(lastLines(describe(c, c.Fault, o, o.root), 4), 900))
+		}
 	}
 	return nil
 }
